@@ -221,22 +221,31 @@ func converterPart(c *harness.Check) {
 	}
 	dc := newDomCtx(domLabels, 4, 20)
 
-	// cases: every single rule of the 200-rule alphabet, every ordered pair of a
-	// 16-rule alphabet, and generated sets straddling the thresholds
+	// cases: single rules of every kind, every ordered pair of a small alphabet,
+	// and generated sets straddling the thresholds.  (One case costs six process
+	// starts, so the quick tier keeps this part small.)
 	var cases [][]item
-	names3 := genNames(domLabels, 3)
-	names2 := genNames(domLabels, 2)
 	var singles []item
-	singles = append(singles, itemsOf('D', names3)...)
-	singles = append(singles, itemsOf('S', names3)...)
-	singles = append(singles, itemsOf('K', names2)...)
-	singles = append(singles, itemsOf('X', regexpAlphabet)...)
+	if c.Thorough() {
+		singles = append(singles, itemsOf('D', genNames(domLabels, 3))...)
+		singles = append(singles, itemsOf('S', genNames(domLabels, 3))...)
+		singles = append(singles, itemsOf('K', genNames(domLabels, 2))...)
+		singles = append(singles, itemsOf('X', regexpAlphabet)...)
+	} else {
+		singles = append(singles, itemsOf('D', genNames(domLabelsSmall, 2))...)
+		singles = append(singles, itemsOf('S', genNames(domLabelsSmall, 2))...)
+		singles = append(singles, itemsOf('K', []string{"a", ".", "a.", ".a", "a.b"})...)
+		singles = append(singles, itemsOf('X', regexpAlphabet[:6])...)
+	}
 	for _, it := range singles {
 		if it.R != "" { // the text form cannot carry an empty rule
 			cases = append(cases, []item{it})
 		}
 	}
-	small := []item{{'D', "a.b"}, {'D', "b"}, {'D', "a.b."}, {'D', ".a"}, {'S', "b"}, {'S', "a.b"}, {'S', "ab.b"}, {'S', "b."}, {'S', ".b"}, {'K', "a"}, {'K', "b."}, {'K', "a.a"}, {'X', `^a\.b$`}, {'X', `b$`}, {'X', `^[ab]+\.a$`}, {'X', `\.\.`}}
+	small := []item{{'D', "a.b"}, {'D', "a.b."}, {'S', "b"}, {'S', "a.b"}, {'S', ".b"}, {'K', "b."}, {'X', `^a\.b$`}, {'X', `\.\.`}}
+	if c.Thorough() {
+		small = append(small, item{'D', "b"}, item{'D', ".a"}, item{'S', "ab.b"}, item{'S', "b."}, item{'K', "a"}, item{'K', "a.a"}, item{'X', `b$`}, item{'X', `^[ab]+\.a$`})
+	}
 	for _, x := range small {
 		for _, y := range small {
 			cases = append(cases, []item{x, y})
